@@ -23,10 +23,11 @@ type Endpoint struct {
 	// Out holds every message written by the local side, in order.
 	Out [][]byte
 	// Taken counts how many entries of Out the harness has consumed.
-	Taken    int
-	writeErr error
-	stalled  bool
-	name     string
+	Taken     int
+	writeErr  error
+	stalled   bool
+	holdClose bool
+	name      string
 	// MaxRead, if > 0, caps the bytes one Read call returns (a transport that
 	// hands data over in segments).
 	MaxRead int
@@ -86,6 +87,11 @@ func (e *Endpoint) Write(p []byte) (int, error) {
 func (e *Endpoint) Close() error {
 	e.mu.Lock()
 	defer e.mu.Unlock()
+	// a close that takes its time (the kernel is busy, the descriptor is contended):
+	// the connection stays open and usable until the hold ends.
+	for e.holdClose {
+		e.cond.Wait()
+	}
 	e.closed = true
 	e.cond.Broadcast()
 	return nil
@@ -135,6 +141,14 @@ func (e *Endpoint) FailWrites(err error) {
 func (e *Endpoint) StallWrites(on bool) {
 	e.mu.Lock()
 	e.stalled = on
+	e.cond.Broadcast()
+	e.mu.Unlock()
+}
+
+// HoldClose makes Close block (with the connection still open) until HoldClose(false).
+func (e *Endpoint) HoldClose(on bool) {
+	e.mu.Lock()
+	e.holdClose = on
 	e.cond.Broadcast()
 	e.mu.Unlock()
 }
